@@ -385,7 +385,8 @@ def entry_points(acc):
                 # ... and the everyday typo: a sibling of root_path that does not exist (and something below it)
                 typo = os.path.join(os.path.dirname(root), "porj")
                 typo_sub = os.path.join(os.path.dirname(root), "proj_v2", "sub")
-                for mp in (root, os.path.join(root, "sub"), other, os.path.dirname(root), dotted_other, dotted_parent, typo, typo_sub):
+                # (the '..' spellings also as pathlib.Path objects: Path(root) / ".." / "elsewhere")
+                for mp in (root, os.path.join(root, "sub"), other, os.path.dirname(root), dotted_other, dotted_parent, typo, typo_sub, Path(root) / os.pardir / os.path.relpath(other, os.path.dirname(root)), Path(root) / "sub" / os.pardir / os.pardir):
                     kw = {"exclude_external_libraries": excl_ext}
                     for i, (k, v) in enumerate(opts.items()):
                         if mask >> i & 1:
@@ -403,7 +404,7 @@ def entry_points(acc):
 
 
 def _entry(fn, root, mp, kw, acc):
-    HUB.case = {"kind": "entry", "mp_rel": os.path.relpath(mp, root), "kw": {k: list(v) if isinstance(v, tuple) else v for k, v in kw.items()}}
+    HUB.case = {"kind": "entry", "mp_rel": os.path.relpath(mp, root), "as_path_object": not isinstance(mp, str), "kw": {k: list(v) if isinstance(v, tuple) else v for k, v in kw.items()}}
     try:
         fn(root, mp, **kw)
     except Exception:  # noqa: BLE001
